@@ -104,13 +104,35 @@ func init() {
 				return err
 			}
 		}
+		if allow.WitnessF20() {
+			run.KnownHits["F20"]++
+		}
 		run.Extra["skipped_tables_F11"] = routing.SkippedBuild
 		return nil
 	}
 
 	checks["C03"] = func(run *report.Run) error {
-		run.Rule = "every generated table is built in the generated order and in k random permutations of its WebServices and of each service's routes (k = 3 quick, 8 thorough); every request is dispatched on all of them; inside the property's quantifier (same-method routes have different paths, no two roots of the same literal/variable shape) all real outcomes must be the same and each must equal the model's; distinct = distinct (table, permutation, request) whose root matched"
+		run.Rule = "(1) never less specific, on single outcomes: the C01 generator (both routers, and RouterJSR311 with literal roots only); the driver evaluates Spec.c03Holds on every real outcome of a well-formed table: when a route function ran, no other route of its WebService that admits the URL and is eligible for the request has a more specific template (a literal segment where the selected one has a variable, same shape otherwise), no other WebService whose root claims the URL has a root with literals where the selected root has variables or that properly extends it (CurlyRouter), no other matching literal root has more literal characters (RouterJSR311); the projection compared with the model is which function ran; the predicate is evaluated on the real outcomes of the permuted tables of (2) as well. (2) order independence, on pairs: every generated table is built in the generated order and in k random permutations of its WebServices and of each service's routes (k = 3 quick, 8 thorough); every request is dispatched on all of them; inside the property's quantifier (same-method routes have different paths, no two roots of the same literal/variable shape) all real outcomes must be the same and each must equal the model's; distinct = distinct (table, request) lines of (1) plus distinct (table, permutation, request) of (2) whose root matched"
 		routingMeta(run)
+		// (1) the single-outcome predicate on every real outcome. No Known classes: F05 is about the
+		// registration ORDER between roots that score equally, it excuses nothing here.
+		// Coverage classes counted per stream: C03routes2 = the WebService of the route that ran had
+		// two or more candidate routes, C03roots2 = two or more roots were candidates. The third
+		// stream has literal roots only: there the RouterJSR311 root clause always speaks.
+		ns := sizes(run, 150, 3000)
+		single := routing.PropSpec{ID: "C03", SpecKey: "C03", Proj: routing.ProjWhich, NeedWF: true,
+			Classes: []string{"C03routes2", "C03roots2"}}
+		jlit := routing.FullOpts("jsr")
+		jlit.RootVars, jlit.RootRe = false, false
+		if err := routing.CheckStreams(run, single, []routing.StreamSpec{
+			{Name: "curly", Opts: routing.FullOpts("curly"), NCfg: ns, PerCfg: 20},
+			{Name: "jsr", Opts: routing.FullOpts("jsr"), NCfg: ns, PerCfg: 20},
+			{Name: "jsr-literal-roots-single", Opts: jlit, NCfg: ns, PerCfg: 20},
+		}); err != nil {
+			return err
+		}
+		// (2) the pair property on permuted tables; the real outcome of every table of every pair
+		// must satisfy the single-outcome predicate as well (PairSpec.Single)
 		n := sizes(run, 100, 2000)
 		k := 3
 		if run.Tier == "thorough" {
@@ -128,11 +150,12 @@ func init() {
 			}
 			return vs
 		}
-		pairs, err := routing.RunVariants(run.Seed*104729+1, n, 15, routing.FullOpts("curly"), perms)
+		co := routing.FullOpts("curly")
+		pairs, err := routing.RunVariants(run.Seed*104729+1, n, 15, co, perms)
 		if err != nil {
 			return err
 		}
-		routing.CheckPairs(run, routing.PairSpec{ID: "C03",
+		routing.CheckPairs(run, routing.PairSpec{ID: "C03", Single: &single, Opts: &co,
 			Applies: func(p *routing.PairCase) bool {
 				return p.Class["distinctMethodPath"] == "1" && p.Class["sameShapeRoots"] == "0"
 			},
@@ -145,13 +168,16 @@ func init() {
 		if routing.WitnessF05() {
 			run.KnownHits["F05"]++
 		}
+		if routing.WitnessF21() {
+			run.KnownHits["F21"]++
+		}
 		jo := routing.FullOpts("jsr")
 		jo.RootVars, jo.RootRe = false, false
 		pairs, err = routing.RunVariants(run.Seed*104729+2, n, 15, jo, perms)
 		if err != nil {
 			return err
 		}
-		routing.CheckPairs(run, routing.PairSpec{ID: "C03",
+		routing.CheckPairs(run, routing.PairSpec{ID: "C03", Single: &single, Opts: &jo,
 			Applies: func(p *routing.PairCase) bool { return p.Class["distinctMethodPath"] == "1" }}, "jsr-literal-roots", pairs)
 		run.Extra["skipped_tables_F11"] = routing.SkippedBuild
 		return nil
@@ -271,6 +297,9 @@ func init() {
 		}
 		if allow.WitnessF14() {
 			run.KnownHits["F14"]++
+		}
+		if allow.WitnessF20() {
+			run.KnownHits["F20"]++
 		}
 		return nil
 	}
